@@ -38,7 +38,7 @@ func runGen(a hx.Args) string {
 	var l []uint64
 	movegen.GenNoisy(ms, b)
 	for _, m := range ms.Frame() {
-		l = append(l, uint64(m.Move))
+		l = append(l, hx.M2U(m.Move))
 	}
 	emitSorted(l)
 	ms.Pop()
@@ -46,13 +46,13 @@ func runGen(a hx.Args) string {
 	l = nil
 	movegen.GenNotNoisy(ms, b)
 	for _, m := range ms.Frame() {
-		l = append(l, uint64(m.Move))
+		l = append(l, hx.M2U(m.Move))
 	}
 	emitSorted(l)
 	ms.Pop()
 	l = nil
 	for _, m := range posgen.Legal(b) {
-		l = append(l, uint64(m))
+		l = append(l, hx.M2U(m))
 	}
 	emitSorted(l)
 	return out.String()
@@ -62,7 +62,7 @@ func runIpl(a hx.Args) string {
 	b, _ := a.Board(0)
 	out := &hx.Nums{}
 	for m := 0; m < 32768; m++ {
-		if b.IsPseudoLegal(move.Move(m)) {
+		if b.IsPseudoLegal(hx.U2M(uint64(m))) {
 			out.U(uint64(m))
 		}
 	}
